@@ -224,6 +224,10 @@ func (m *Macaroon) Add(caveats ...Caveat) error {
 			return errors.New("cannot add attestations to non-proof macaroons")
 		}
 
+		if wrapsAttestation(caveat) {
+			return errors.New("cannot add attestations wrapped in other caveats")
+		}
+
 		if c3p, ok := caveat.(*Caveat3P); ok {
 			// make a copy since we have to modify it. in case the caveat is
 			// added to multiple macaroons
@@ -386,6 +390,10 @@ func (m *Macaroon) verify(k SigningKey, dms []*Macaroon, parentTokenBindingIds [
 		default:
 			if IsAttestation(cav) && !m.Nonce.Proof {
 				return nil, errors.New("attestation in non-proof macaroon")
+			}
+
+			if wrapsAttestation(cav) {
+				return nil, errors.New("attestation wrapped in another caveat")
 			}
 
 			if !IsAttestation(cav) || trustAttestations {
